@@ -90,6 +90,20 @@ def graphs(draw, max_edges=8, features=None):
         if later:
             v = draw(st.sampled_from(later))
             edges[i]['vals'] = edges[i]['vals'] + [key(v)]
+    # a chain of phony aliases below the output of a restat statement, consumed by one more command: when the restat
+    # command reproduces its output the whole chain is pruned from the plan while other commands are still pending
+    if f['phony'] and f['restat'] and f.get('phony_chain', True) and draw(st.integers(0, 5)) == 5:
+        cand = [e for e in edges if e['restat'] and not e['phony']]
+        if cand:
+            r = cand[draw(st.integers(0, len(cand) - 1))]
+            prev = r['outs'][0]
+            for ci in range(draw(st.integers(1, 3))):
+                nm = "phc%d" % ci
+                edges.append(dict(outs=[nm], iouts=[], phony=True, exp=[prev], imp=[], oo=[], vals=[], restat=False, generator=False, deps='',
+                                  hidden=[], variant='v0', pool='', rsp=None, dd=None, depfile_layout=0))
+                prev = nm
+            edges.append(dict(outs=['ochain'], iouts=[], phony=False, exp=[prev], imp=[], oo=[], vals=[], restat=False, generator=False, deps='',
+                              hidden=[], variant='v0', pool='', rsp=None, dd=None, depfile_layout=0))
     g = dict(srcs=srcs, edges=edges, pools=pools)
     if f['dyndep'] is True or (f['dyndep'] == 'some' and draw(st.integers(0, 3)) == 3):
         add_dyndep(draw, g, f.get('dd_validation', True))
